@@ -62,6 +62,33 @@ impl Alphabet {
         }
     }
 
+    /// Every *form* a leaf head can take (all argument widths of integers and string lengths, one- and
+    /// two-byte simple values, the three float widths): each of these is a separate arm in a decoder
+    /// that walks over items. Meant for small trees (<= 4 nodes).
+    pub fn leaf_forms() -> Self {
+        let mut leaves = Vec::new();
+        for w in ALL_W {
+            leaves.push(Item::Uint(0, w));
+            leaves.push(Item::Nint(0, w));
+            leaves.push(Item::Bytes(vec![1], StrForm::Def(w)));
+            leaves.push(Item::Text(vec![b'a'], StrForm::Def(w)));
+        }
+        leaves.push(Item::uint(23));
+        leaves.push(Item::uint(24));
+        leaves.push(Item::nint(23));
+        leaves.push(Item::nint(24));
+        leaves.push(Item::bytes(&[]));
+        leaves.push(Item::bytes(&[7; 24]));
+        leaves.push(Item::text(""));
+        for s in [0u8, 19, 20, 21, 22, 23, 32, 255] {
+            leaves.push(Item::Simple(s));
+        }
+        leaves.push(Item::f16(0x3e00));
+        leaves.push(Item::f32(1.5f32.to_bits()));
+        leaves.push(Item::f64(1.5f64.to_bits()));
+        Alphabet { leaves, byte_chunks: vec![vec![2]], text_chunks: vec![vec![b'b']], tags: vec![1], arrays: true, maps: true, indefinite: true }
+    }
+
     /// Structural alphabet: only what influences item boundaries.
     pub fn structural() -> Self {
         Alphabet {
